@@ -1,7 +1,7 @@
 (* C05 — Each manipulation call has exactly the effect an ordered-tree model predicts.
    Pinned statements only.  Model: Model/Store.v, Model/Manip.v. *)
 From Coq Require Import List NArith Permutation.
-From XotV Require Import Model.Base Model.Zipper Model.Access Model.Store Model.Manip Proofs.StoreProofs Proofs.ManipProofs Proofs.InvSteps Proofs.TreeFrame Proofs.Canon Proofs.CloneShape Proofs.WrapEffect.
+From XotV Require Import Model.Base Model.Zipper Model.Access Model.Store Model.Manip Proofs.StoreProofs Proofs.ManipProofs Proofs.InvSteps Proofs.TreeFrame Proofs.Canon Proofs.CloneShape Proofs.WrapEffect Proofs.DetachEffect Spec.Shape.
 Import ListNotations.
 Open Scope N_scope.
 
@@ -97,3 +97,45 @@ Theorem C05_element_wrap_effect_root :
       /\ store st' = FCons w (VElement name) (FCons n (z_val z) (z_kids z) FNil) (fapp A B).
 Proof. exact wrap_store_root. Qed.
 Print Assumptions C05_element_wrap_effect_root.
+
+
+(* detach and remove have exactly the effect the ordered-tree model predicts, for every ordinary node [n] that has a parent, in
+   every good store: the node (with its subtree, unchanged) leaves its sibling list — detach makes it a parentless tree, remove
+   destroys it — and the list it leaves is [seam]: what stood before it followed by what stood after it, where, if these two
+   neighbours are both text nodes and consolidation is on, the second text has gone into the first.  Everything else — the
+   ancestors, the other siblings, every other tree — is exactly as it was. *)
+Theorem C05_detach_effect :
+  forall st n z A B, Good st -> cur st n = Some z -> store st = fapp A (fapp (plug z) B) ->
+    z_ups z <> [] -> is_normal (z_val z) = true ->
+    store (fst (m_detach st n))
+    = FCons n (z_val z) (z_kids z) (fapp A (fapp (plug_ups (seam (cons st) (z_before z) (z_after z)) (z_ups z)) B)).
+Proof. exact detach_effect. Qed.
+Print Assumptions C05_detach_effect.
+
+Theorem C05_remove_effect :
+  forall st n z A B, Good st -> cur st n = Some z -> store st = fapp A (fapp (plug z) B) ->
+    z_ups z <> [] -> is_normal (z_val z) = true ->
+    store (fst (m_remove st n)) = fapp A (fapp (plug_ups (seam (cons st) (z_before z) (z_after z)) (z_ups z)) B).
+Proof. exact remove_effect. Qed.
+Print Assumptions C05_remove_effect.
+
+(* append of a node that has just been created (the commonest call): the node becomes the last child of the element or
+   document, or — a text node after a text node, consolidation on — its text goes into that last child and the node is freed;
+   [usnoc] is that one step on forests without slots (Proofs/CloneShape.v), everything else is as it was *)
+Theorem C05_append_of_new_node_effect :
+  forall st1 zc S0 n v, Good st1 -> top_clean zc -> container (z_val zc) ->
+    store st1 = FCons n v FNil (fapp (plug zc) S0) -> child_ok v = true ->
+    exists st2 K2, m_append st1 (z_slot zc) n = (st2, MDone None)
+      /\ Good st2 /\ store st2 = fapp (plug (with_kids zc K2)) S0 /\ cons st2 = cons st1
+      /\ erase K2 = usnoc (cons st1) (erase (z_kids zc)) v UNil
+      /\ (is_text_val v = false -> K2 = fapp (z_kids zc) (FCons n v FNil FNil)).
+Proof. exact m_append_fresh. Qed.
+Print Assumptions C05_append_of_new_node_effect.
+
+(* the seam on a concrete level: "a" x "b" loses x *)
+Example C05_seam_example :
+  seam true (FCons 1 (VText [97]) FNil FNil) (FCons 3 (VText [98]) FNil (FCons 4 (VElement 9) FNil FNil))
+  = FCons 1 (VText [97; 98]) FNil (FCons 4 (VElement 9) FNil FNil)
+  /\ seam false (FCons 1 (VText [97]) FNil FNil) (FCons 3 (VText [98]) FNil FNil)
+     = FCons 1 (VText [97]) FNil (FCons 3 (VText [98]) FNil FNil).
+Proof. split; reflexivity. Qed.
